@@ -15,7 +15,8 @@ def subscript_strategy():
     dec = hs.tuples(hs.integers(0, 30), hs.integers(1, 999)).map(lambda t: "%d.%s" % (t[0], str(t[1]).rstrip("0") or "5"))
     lead = hs.integers(1, 99).map(lambda k: "." + (str(k).rstrip("0") or "5"))
     tiny = hs.tuples(hs.integers(4, 12), hs.integers(1, 9)).map(lambda t: "0." + "0" * t[0] + str(t[1]))      # trace-level stoichiometry: 0.00000005
-    return hs.one_of(ints, ints, dec, big, lead, tiny)
+    longrun = hs.tuples(hs.integers(1, 9), hs.integers(18, 26)).map(lambda t: "%d." % t[0] + "0" * t[1])      # 2.0000000000000000000000: 20+ digits, value 2
+    return hs.one_of(ints, ints, dec, big, lead, tiny, longrun)
 
 
 def formula_strategy(symbols, max_depth=4, max_terms=4):
